@@ -33,6 +33,14 @@ Definition contract_step (s s' : state) (sym : name) (c c' : Z) : Prop :=
   \/ (c = 0 /\ c' = next_contract s /\ next_contract s' = next_contract s + 1
       /\ contracts s' = if next_contract s =? 0 then contracts s else set (next_contract s) sym (contracts s)).
 
+(** a new token comes from an issue or an ERC20 deployment, with the scale the message names *)
+Definition new_token_of (m : msg) (t : token) : Prop :=
+  match m with
+  | Issue _ _ _ _ scale _ _ _ => t_scale t = scale
+  | Deploy _ _ _ _ scale => t_scale t = scale
+  | _ => False
+  end.
+
 (** how one successful message may change the registry *)
 Inductive tok_step (m : msg) (s s' : state) : Prop :=
 | TSsame : tokens s' = tokens s -> minunits s' = minunits s -> nc s' = nc s -> tok_step m s s'
@@ -43,7 +51,7 @@ Inductive tok_step (m : msg) (s s' : state) : Prop :=
 | TSnew t :
     get (t_symbol t) (tokens s) = None -> get (t_minunit t) (minunits s) = None ->
     tokens s' = set (t_symbol t) t (tokens s) -> minunits s' = set (t_minunit t) (t_symbol t) (minunits s) ->
-    contract_step s s' (t_symbol t) 0 (t_contract t) -> tok_step m s s'.
+    contract_step s s' (t_symbol t) 0 (t_contract t) -> new_token_of m t -> tok_step m s s'.
 
 Lemma bank_only_next s s' : bank_only s s' -> nc s' = nc s.
 Proof. intros (B & S & -> & _ & _). reflexivity. Qed.
@@ -197,8 +205,8 @@ Proof. unfold do_upgrade. intros H. inv_if H. inv_if H. inv_if H. inv_if H. inve
 Lemma bank_only_tok_same m s s' : bank_only s s' -> tok_step m s s'.
 Proof. intros H. pose proof (bank_only_next _ _ H). apply bank_only_fields in H. destruct H as (Ht & Hm & _). apply TSsame; assumption. Qed.
 
-Lemma do_deploy_tok m s auth nm sym minu scale s' : IdInv s ->
-  do_deploy s auth nm sym minu scale = ROk s' -> tok_step m s s'.
+Lemma do_deploy_tok s auth nm sym minu scale s' : IdInv s ->
+  do_deploy s auth nm sym minu scale = ROk s' -> tok_step (Deploy auth nm sym minu scale) s s'.
 Proof.
   intros I. unfold do_deploy. intros H. inv_if H. cbv zeta in H.
   destruct (has minu (minunits s)) eqn:Eh.
@@ -221,8 +229,9 @@ Proof.
     destruct (upsert_fields s t') as (Hut & Hum & _).
     apply has_false in Eh. apply has_false in Es.
     apply TSnew with (t := t'); simpl; try assumption.
-    right. split; [reflexivity|]. split; [reflexivity|]. split; [reflexivity|].
-    unfold upsert_token. simpl. destruct (next_contract s =? 0); reflexivity.
+    + right. split; [reflexivity|]. split; [reflexivity|]. split; [reflexivity|].
+      unfold upsert_token. simpl. destruct (next_contract s =? 0); reflexivity.
+    + reflexivity.
 Qed.
 
 Lemma do_swapfee_only s sender receiver denom amt s' :
@@ -257,6 +266,7 @@ Proof.
     + rewrite Ht', Ht3, Hut, Ht1. reflexivity.
     + rewrite Hm', Hm3, Hum, Hm1. reflexivity.
     + left. split; [reflexivity|]. rewrite Hn', Hn3. transitivity (nc s1); [reflexivity|exact Hn1].
+    + reflexivity.
   - (* Edit *)
     apply do_edit_inv in H. destruct H as (t & Ht & Ho & _ & ->).
     eapply TSupd with (sym := sym) (t := t); [eassumption|reflexivity|reflexivity|repeat split| |left; split; reflexivity].
@@ -317,7 +327,7 @@ Qed.
 (** ** the registry invariant is preserved by every message *)
 Lemma tok_step_IdInv m s s' : IdInv s -> tok_step m s s' -> IdInv s'.
 Proof.
-  intros I [Ht Hm _ | sym t t' Hg Ht Hm (Hsy & Hmu & _) _ _ | t Hs Hmn Ht Hm _].
+  intros I [Ht Hm _ | sym t t' Hg Ht Hm (Hsy & Hmu & _) _ _ | t Hs Hmn Ht Hm _ _].
   - constructor; rewrite Ht, Hm; apply I.
   - destruct (id_sym s I sym t Hg) as [Hts Htm].
     constructor; rewrite Ht, Hm.
@@ -364,7 +374,7 @@ Proof.
   destruct (step_cases s m) as [(s' & E & ->)|[_ ->]]; [|assumption].
   assert (Hc : step_code s m = 0) by (unfold step_code; rewrite E; reflexivity).
   apply exec_inv in E. destruct E as [_ E].
-  destruct (handle_tok_step s m s' I E) as [Ht Hm _ | sym0 t0 t' Hg0 Ht Hm Hid Hgov _ | t0 Hs Hmn Ht Hm _].
+  destruct (handle_tok_step s m s' I E) as [Ht Hm _ | sym0 t0 t' Hg0 Ht Hm Hid Hgov _ | t0 Hs Hmn Ht Hm _ _].
   - rewrite Ht. assumption.
   - rewrite Ht, get_set. destruct (eqb sym sym0) eqn:Es.
     + apply eqb_eq in Es. subst sym0. rewrite Hg in Hg0. inversion Hg0; subst t0.
@@ -392,7 +402,7 @@ Lemma step_minunit s m mu sym : IdInv s -> get mu (minunits s) = Some sym -> get
 Proof.
   intros I Hg. destruct (step_cases s m) as [(s' & E & ->)|[_ ->]]; [|assumption].
   apply exec_inv in E. destruct E as [_ E].
-  destruct (handle_tok_step s m s' I E) as [Ht Hm _ | sym0 t0 t' Hg0 Ht Hm Hid Hgov _ | t0 Hs Hmn Ht Hm _]; rewrite Hm; try assumption.
+  destruct (handle_tok_step s m s' I E) as [Ht Hm _ | sym0 t0 t' Hg0 Ht Hm Hid Hgov _ | t0 Hs Hmn Ht Hm _ _]; rewrite Hm; try assumption.
   rewrite get_set_other; [assumption|]. intros Heq. subst mu. congruence.
 Qed.
 
@@ -915,7 +925,7 @@ Qed.
 
 Lemma tok_step_CtrInv m s s' : CtrInv s -> tok_step m s s' -> CtrInv s'.
 Proof.
-  intros C [Ht Hm Hn | sym t t' Hg Ht Hm _ _ Hc | t Hs Hmn Ht Hm Hc].
+  intros C [Ht Hm Hn | sym t t' Hg Ht Hm _ _ Hc | t Hs Hmn Ht Hm Hc _].
   - injection Hn as Hn1 Hn2. destruct C as [P L J X]. constructor; rewrite ?Ht, ?Hn1, ?Hn2; assumption.
   - apply (ctr_update s s' sym t' C Ht). destruct Hc as [[Hc Hn]|(Hz & Hc & Hn & Hcs)].
     + injection Hn as Hn1 Hn2. left. split; [left; exists t; split; assumption|split; assumption].
